@@ -570,82 +570,78 @@ mutual
 /-- `pretty` returns nothing when `skip_empty_arrays` drops the item, else a JSON text of the
 column-ordered tree — whatever the options, pair layout included -/
 theorem jpretty_ren (o : Opts) : ∀ (t : Val), wf t = true → ∀ (lvl : Nat),
-    lvl + depth t ≤ 111 → Out o (pairOrder o t) (pretty o lvl t)
-  | .none, _, lvl, _ => by
+    Out o (pairOrder o t) (pretty o lvl t)
+  | .none, _, lvl => by
     simp only [pretty, pairOrder]
     exact Out_scalar o _ (by simp [prune, isEmptyContainer]) (by unfold dropEmptyIf; split <;> simp [prune, Ren])
-  | .bool b, _, lvl, _ => by
+  | .bool b, _, lvl => by
     simp only [pretty, pairOrder]
     exact Out_scalar o _ (by simp [prune, isEmptyContainer]) (by unfold dropEmptyIf; split <;> simp [prune, Ren])
-  | .int i, _, lvl, _ => by
+  | .int i, _, lvl => by
     simp only [pretty, pairOrder]
     exact Out_scalar o _ (by simp [prune, isEmptyContainer]) (by unfold dropEmptyIf; split <;> simp [prune, Ren])
-  | .str x, _, lvl, _ => by
+  | .str x, _, lvl => by
     simp only [pretty, pairOrder]
     exact Out_scalar o _ (by simp [prune, isEmptyContainer]) (by unfold dropEmptyIf; split <;> simp [prune, Ren])
-  | .flt r, hw, lvl, _ => by
+  | .flt r, hw, lvl => by
     simp only [pretty, pairOrder]
     simp only [wf] at hw
     exact Out_scalar o _ (by simp [prune, isEmptyContainer])
       (by unfold dropEmptyIf; split <;> simp [prune, Ren, scalarText, hw])
-  | .list c xs, hw, lvl, hd => by
+  | .list c xs, hw, lvl => by
     simp only [wf] at hw
-    simp only [depth] at hd
     rcases pairSel_cases o xs with hg | ⟨c0, cols, hsel, hcols⟩
     · rw [pretty_list_general hg, pairOrder_list_general hg]
       apply Out_of_AccL
-      have := jitems_ren o xs hw lvl [] [] (by omega) (by omega) (by simp [AccL])
+      have := jitems_ren o xs hw lvl [] [] (by simp [AccL])
       simpa using this
     · rw [pretty_list_pair hsel, pairOrder_list_pair hsel]
       apply Out_of_AccL
       have hinv := pairCols_inv hcols
       have := pairBody_acc o lvl (c0 :: cols) xs hinv.1 (wfL_mem xs hw) [] [] (by simp [AccL])
       simpa using this
-  | .dict c kvs, hw, lvl, hd => by
+  | .dict c kvs, hw, lvl => by
     simp only [pretty, pairOrder]
     apply Out_of_AccK
     simp only [wf, Bool.and_eq_true] at hw
-    simp only [depth] at hd
-    have := jkvs_ren o kvs hw.1 lvl (condense kvs) [] [] (by omega) (by omega) (by simp [AccK])
+    have := jkvs_ren o kvs hw.1 lvl (condense kvs) [] [] (by simp [AccK])
     simpa using this
 theorem jitems_ren (o : Opts) : ∀ (xs : List Val), wfL xs = true →
-    ∀ (lvl : Nat) (acc : Str) (done : List Val), lvl < 111 → lvl + 1 + depthL xs ≤ 111 →
+    ∀ (lvl : Nat) (acc : Str) (done : List Val),
     AccL done acc → AccL (done ++ dropL o (pairOrderL o xs)) (prettyItems o lvl xs acc)
-  | [], _, lvl, acc, done, _, _, ha => by
+  | [], _, lvl, acc, done, ha => by
     have : dropL o [] = [] := by unfold dropL; split <;> simp [pruneList]
     simpa [prettyItems, pairOrderL, this] using ha
-  | x :: xs, hw, lvl, acc, done, hl, hd, ha => by
+  | x :: xs, hw, lvl, acc, done, ha => by
     simp only [wfL, Bool.and_eq_true] at hw
-    simp only [depthL] at hd
-    have hx := jpretty_ren o x hw.1 (lvl + 1) (by omega)
-    simp only [prettyItems, hl, ↓reduceIte, pairOrderL]
+    have hx := jpretty_ren o x hw.1 (lvl + 1)
+    simp only [prettyItems, guard_json, ↓reduceIte, pairOrderL]
     rcases hx with ⟨hs, he, hnil⟩ | ⟨hne, hr⟩
     · rw [hnil, dropL_cons_drop _ hs he]
       simp only [hs, List.isEmpty_nil, Bool.and_self, ↓reduceIte]
-      exact jitems_ren o xs hw.2 lvl acc done hl (by omega) ha
+      exact jitems_ren o xs hw.2 lvl acc done ha
     · have hsub : (pretty o (lvl + 1) x).isEmpty = false := by
         have := Ren_ne_nil hr
         cases h : pretty o (lvl + 1) x <;> simp_all
       rw [dropL_cons_keep _ hne]
       simp only [hsub, Bool.and_false, Bool.false_eq_true, ↓reduceIte]
       have ha' := AccL_step ha hr (Ws_nlAt o (lvl + 1))
-      have := jitems_ren o xs hw.2 lvl _ _ hl (by omega) ha'
+      have := jitems_ren o xs hw.2 lvl _ _ ha'
       simpa [joinItem_eq] using this
 theorem jkvs_ren (o : Opts) : ∀ (kvs : List (Str × Val)), wfK kvs = true →
-    ∀ (lvl : Nat) (cond : Bool) (acc : Str) (done : List (Str × Val)), lvl < 111 → lvl + 1 + depthK kvs ≤ 111 →
+    ∀ (lvl : Nat) (cond : Bool) (acc : Str) (done : List (Str × Val)),
     AccK done acc → AccK (done ++ dropK o (pairOrderK o kvs)) (prettyKvs o lvl cond kvs acc)
-  | [], _, lvl, cond, acc, done, _, _, ha => by
+  | [], _, lvl, cond, acc, done, ha => by
     have : dropK o [] = [] := by unfold dropK; split <;> simp [pruneKvs]
     simpa [prettyKvs, pairOrderK, this] using ha
-  | (k, v) :: kvs, hw, lvl, cond, acc, done, hl, hd, ha => by
+  | (k, v) :: kvs, hw, lvl, cond, acc, done, ha => by
     simp only [wfK, Bool.and_eq_true] at hw
-    simp only [depthK] at hd
-    have hx := jpretty_ren o v hw.1 (lvl + 1) (by omega)
-    simp only [prettyKvs, hl, ↓reduceIte, pairOrderK]
+    have hx := jpretty_ren o v hw.1 (lvl + 1)
+    simp only [prettyKvs, guard_json, ↓reduceIte, pairOrderK]
     rcases hx with ⟨hs, he, hnil⟩ | ⟨hne, hr⟩
     · rw [hnil, dropK_cons_drop _ hs he]
       simp only [hs, List.isEmpty_nil, Bool.and_self, ↓reduceIte]
-      exact jkvs_ren o kvs hw.2 lvl cond acc done hl (by omega) ha
+      exact jkvs_ren o kvs hw.2 lvl cond acc done ha
     · have hsub : (pretty o (lvl + 1) v).isEmpty = false := by
         have := Ren_ne_nil hr
         cases h : pretty o (lvl + 1) v <;> simp_all
@@ -656,7 +652,7 @@ theorem jkvs_ren (o : Opts) : ∀ (kvs : List (Str × Val)), wfK kvs = true →
         · exact Ws_sp o
         · exact Ws_nlAt o (lvl + 1)
       have ha' := AccK_step (k := k) ha hr hw' (Ws_sp o)
-      have := jkvs_ren o kvs hw.2 lvl cond _ _ hl (by omega) ha'
+      have := jkvs_ren o kvs hw.2 lvl cond _ _ ha'
       simpa [joinItem_eq] using this
 end
 
@@ -788,9 +784,9 @@ theorem pairOrder_list_shape (o : Opts) (c : Cls) (xs : List Val) :
 /-- **the reader on the exported text, every layout**: `json.loads(x.to_json(…))` is the
 column-ordered tree with class tags forgotten and (under `skip_empty_arrays`) empty containers
 dropped -/
-theorem jsonDecode_toJson (o : Opts) (t : Val) (hw : wf t = true) (hd : depth t ≤ 111) :
+theorem jsonDecode_toJson (o : Opts) (t : Val) (hw : wf t = true) :
     jsonDecode (toJson o t) = some (erase (dropEmptyIf o (pairOrder o t))) := by
-  have hout := jpretty_ren o t hw 0 (by omega)
+  have hout := jpretty_ren o t hw 0
   unfold toJson
   rcases hout with ⟨hs, he, hnil⟩ | ⟨_, hr⟩
   · simp only [hnil, List.isEmpty_nil, if_true]
@@ -1362,9 +1358,9 @@ theorem isDict_pairOrder (o : Opts) (t : Val) : isDict (pairOrder o t) = isDict 
   | _ => rfl
 
 /-- the text exported for a dict is `{…}` -/
-theorem toJson_dict_shape (o : Opts) (c : Cls) (kvs : List (Str × Val)) (hw : wf (.dict c kvs) = true)
-    (hd : depth (.dict c kvs) ≤ 111) : ∃ body, toJson o (.dict c kvs) = '{' :: (body ++ ['}']) := by
-  have hout := jpretty_ren o (.dict c kvs) hw 0 (by omega)
+theorem toJson_dict_shape (o : Opts) (c : Cls) (kvs : List (Str × Val)) (hw : wf (.dict c kvs) = true) :
+    ∃ body, toJson o (.dict c kvs) = '{' :: (body ++ ['}']) := by
+  have hout := jpretty_ren o (.dict c kvs) hw 0
   unfold toJson
   by_cases he : (pretty o 0 (.dict c kvs)).isEmpty = true
   · simp only [he, if_true, isDict]
@@ -1375,9 +1371,9 @@ theorem toJson_dict_shape (o : Opts) (c : Cls) (kvs : List (Str × Val)) (hw : w
     exact (Out_bracketed hout hne).1 (by simp [pairOrder, isDict])
 
 /-- the text exported for a list is `[…]` -/
-theorem toJson_list_shape (o : Opts) (c : Cls) (xs : List Val) (hw : wf (.list c xs) = true)
-    (hd : depth (.list c xs) ≤ 111) : ∃ body, toJson o (.list c xs) = '[' :: (body ++ [']']) := by
-  have hout := jpretty_ren o (.list c xs) hw 0 (by omega)
+theorem toJson_list_shape (o : Opts) (c : Cls) (xs : List Val) (hw : wf (.list c xs) = true) :
+    ∃ body, toJson o (.list c xs) = '[' :: (body ++ [']']) := by
+  have hout := jpretty_ren o (.list c xs) hw 0
   unfold toJson
   by_cases he : (pretty o 0 (.list c xs)).isEmpty = true
   · simp only [he, if_true, isDict]
@@ -1396,25 +1392,43 @@ theorem jsonDecodeE_of_jsonDecode {s : Str} {v : Val} (h : jsonDecode s = some v
 
 /-- **export, then construct** (dict): `n0dict(x.to_json(…))` is the column-ordered tree, minus
 empty containers under `skip_empty_arrays`, every dict an n0dict and every inner list a plain list -/
-theorem n0dictOfText_toJson (o : Opts) (c : Cls) (kvs : List (Str × Val)) (hw : wf (.dict c kvs) = true)
-    (hd : depth (.dict c kvs) ≤ 111) :
+theorem n0dictOfText_toJson (o : Opts) (c : Cls) (kvs : List (Str × Val)) (hw : wf (.dict c kvs) = true) :
     n0dictOfText (toJson o (.dict c kvs))
       = .ok (tagN0 (erase (dropEmptyIf o (pairOrder o (.dict c kvs))))) := by
-  obtain ⟨body, hb⟩ := toJson_dict_shape o c kvs hw hd
-  have hdec := jsonDecodeE_of_jsonDecode (jsonDecode_toJson o _ hw hd)
+  obtain ⟨body, hb⟩ := toJson_dict_shape o c kvs hw
+  have hdec := jsonDecodeE_of_jsonDecode (jsonDecode_toJson o _ hw)
   rw [hb] at hdec ⊢
   rw [n0dictOfText_json (r := body ++ ['}']) (by simp) (stripWs_bracketed (by decide) (by decide) body), hdec]
   rfl
 
 /-- **export, then construct** (list): `n0list(x.to_json(…))` -/
-theorem n0listOfText_toJson (o : Opts) (c : Cls) (xs : List Val) (hw : wf (.list c xs) = true)
-    (hd : depth (.list c xs) ≤ 111) :
+theorem n0listOfText_toJson (o : Opts) (c : Cls) (xs : List Val) (hw : wf (.list c xs) = true) :
     n0listOfText (toJson o (.list c xs))
       = .ok (tagTop (erase (dropEmptyIf o (pairOrder o (.list c xs))))) := by
-  obtain ⟨body, hb⟩ := toJson_list_shape o c xs hw hd
-  have hdec := jsonDecodeE_of_jsonDecode (jsonDecode_toJson o _ hw hd)
+  obtain ⟨body, hb⟩ := toJson_list_shape o c xs hw
+  have hdec := jsonDecodeE_of_jsonDecode (jsonDecode_toJson o _ hw)
   rw [hb] at hdec ⊢
   rw [n0listOfText_json (r := body ++ [']']) (by simp) (stripWs_bracketed (by decide) (by decide) body), hdec]
   rfl
+
+/-! ### a family of arbitrarily deep trees (non-vacuity of the unbounded statements) -/
+
+/-- `n` dicts around `v` -/
+def nest : Nat → Val → Val
+  | 0, v => v
+  | n + 1, v => .dict .n0 [(['a'], nest n v)]
+
+theorem wf_nest (v : Val) (h : wf v = true) : ∀ n, wf (nest n v) = true
+  | 0 => h
+  | n + 1 => by simp [nest, wf, wfK, nodupKeys, keysOf, wf_nest v h n]
+
+theorem depth_nest (v : Val) : ∀ n, depth (nest n v) = n + depth v
+  | 0 => by simp [nest]
+  | n + 1 => by simp only [nest, depth, depthK, depth_nest v n]; omega
+
+/-- nothing in `nest` is a list: the pair layout re-lists nothing -/
+theorem pairOrder_nest (o : Opts) : ∀ n, pairOrder o (nest n (.int 1)) = nest n (.int 1)
+  | 0 => rfl
+  | n + 1 => by simp only [nest, pairOrder, pairOrderK, pairOrder_nest o n]
 
 end N0.Json
